@@ -130,6 +130,17 @@ def edge_id_of(src, dst, rel):
 
 
 @spec
+def is_snap_name(n):
+    """a numbered snapshot body: snap_<digits>.json"""
+    return n.endswith('.json') and n.startswith('snap_') and n[5:-5].isdigit()
+
+
+@spec
+def snap_num(n):
+    return int_value(n[5:-5])
+
+
+@spec
 def san_weight(w, wmin, wmax, eps):
     """the weight `_sanitize_gel_for_write` stores for an input weight w"""
     return ite(absr(round6(clampf(w, wmin, wmax))) < eps, 0.0, round6(clampf(w, wmin, wmax)))
